@@ -79,8 +79,21 @@ func (c call) pi(i int) int {
 }
 
 // run performs the call on the real library (plain Encode variants).
+// schemeFam maps a family name to its index in renderFams (entry points with a colour scheme).
+var schemeFam = map[string]int{"qr": 0, "dm": 1, "az": 2, "pdf": 3, "c128": 4, "ean": 5, "c39": 6, "c93": 7, "codabar": 8, "tof": 9}
+
 func (c call) run() (barcode.Barcode, error) {
 	s := string(c.s)
+	// "fam@k": the WithColor entry point of the family with colour scheme k of renderSchemes
+	if i := strings.IndexByte(c.fam, '@'); i >= 0 {
+		k, _ := strconv.Atoi(c.fam[i+1:])
+		sc := renderSchemes[k%len(renderSchemes)].sc
+		p := append([]int(nil), c.p...)
+		for len(p) < 2 {
+			p = append(p, 0)
+		}
+		return renderFams[schemeFam[c.fam[:i]]].enc(c.s, p, &sc)
+	}
 	switch c.fam {
 	case "qr":
 		return qr.Encode(s, qrLevels[c.pi(0)], qrModes[c.pi(1)])
@@ -250,6 +263,27 @@ func pairAlphabets(thorough bool) map[string][]call {
 			add("qr", qrFill(4, qrCap(4, lvl, v)), lvl, 3)
 		}
 	}
+	// the WithColor entry points: same contents under two schemes and plain, incl. larger QR versions
+	for _, v := range []int{1, 10, 12} {
+		content := qrFill(1, qrCap(1, 0, v))
+		for _, fam := range []string{"qr", "qr@6", "qr@7"} {
+			al["qr"] = append(al["qr"], call{fam, content, []int{0, 1}})
+			al["qr"] = append(al["qr"], call{fam, qrFill(4, qrCap(4, 1, v)), []int{1, 3}})
+		}
+	}
+	for _, fam := range []string{"dm@6", "dm@8"} {
+		al["dm"] = append(al["dm"], call{fam, []byte("colour 123"), nil}, call{fam, dmByCodewords(44)[0], nil})
+	}
+	for _, fam := range []string{"az@6", "az@8"} {
+		al["az"] = append(al["az"], call{fam, []byte("colour 123"), []int{33, 0}}, call{fam, azFills[0](100), []int{23, 0}})
+	}
+	al["pdf"] = append(al["pdf"], call{"pdf@6", []byte("colour 123"), []int{1}}, call{"pdf@8", []byte("colour 123"), []int{1}})
+	al["c128"] = append(al["c128"], call{"c128@6", []byte("Ab1"), []int{1}}, call{"c128@8", []byte("Ab1"), []int{0}})
+	al["ean"] = append(al["ean"], call{"ean@6", []byte("1234567"), nil}, call{"ean@8", []byte("590123412345"), nil})
+	al["c39"] = append(al["c39"], call{"c39@6", []byte("CODE 39"), []int{1, 0}}, call{"c39@8", []byte("a~"), []int{1, 1}})
+	al["c93"] = append(al["c93"], call{"c93@6", []byte("CODE 39"), []int{1, 0}}, call{"c93@8", []byte("a~"), []int{1, 1}})
+	al["codabar"] = append(al["codabar"], call{"codabar@6", []byte("A1B"), nil})
+	al["tof"] = append(al["tof"], call{"tof@6", []byte("12"), []int{1}}, call{"tof@8", []byte("12"), []int{0}})
 	// DataMatrix: one or two contents per symbol size
 	for i, sz := range dmdec.Sizes {
 		add("dm", dmByCodewords(sz.DataCodewords)[0])
@@ -431,7 +465,12 @@ func init() {
 func seqPairs(c *core.Ctx, fams ...string) {
 	al := pairAlphabets(c.Thorough())
 	for _, fam := range fams {
-		calls := al[fam]
+		var calls []call
+		for _, k := range al[fam] {
+			if !strings.Contains(k.fam, "@") { // the family evaluators drive the plain entry points
+				calls = append(calls, k)
+			}
+		}
 		for _, a := range calls {
 			for _, b := range calls {
 				if !c.Mine() {
